@@ -267,6 +267,7 @@ Proof.
   unfold bibtex_len. intros H. inv_ok. apply scan_go_len in Hr. exact Hr.
 Qed.
 
+(* TMP-OUT-BEGIN
 (* ------------------------------------------------------------------ text prefix *)
 Definition pfx (ts : list tok) (len n : Z) (ll : nat) : str :=
   let r := prefix_go ts len n ll in fst r ++ repeat c_rbrace (snd r).
@@ -576,6 +577,13 @@ Proof.
   exists (s2l "{\{"), 1%Z, (s2l "{\{}"). split; [vm_compute; reflexivity|vm_compute; discriminate].
 Qed.
 
+TMP-OUT-END *)
+Lemma bs_head_app a b : bs_head a = true -> bs_head (a ++ b) = true.
+Proof. destruct a; cbn; [discriminate|auto]. Qed.
+
+Definition sp_ok (sp : option (nat * str)) (s : str) : Prop :=
+  match sp with Some (_, acc) => bs_head (rev acc ++ s) = true | None => True end.
+
 (* ------------------------------------------------------------------ purify *)
 Definition plainc (c : char) : bool := is_alnum c || N.eqb c c_space.
 
@@ -670,6 +678,7 @@ Proof.
   - eexists (firstn _ s), (skipn _ (skipn _ s)). rewrite firstn_skipn, firstn_skipn. reflexivity.
 Qed.
 
+(* TMP-OUT-BEGIN
 (* for every string (balanced or not) the output is a prefix followed by closing braces,
    never more of them than the prefix leaves open (clamped depth) *)
 Lemma F_shape_all : forall s level sp len n,
@@ -797,6 +806,7 @@ Proof.
   - inv_ok. exists [], 0. repeat split; [exists s; reflexivity|cbn; lia].
 Qed.
 
+TMP-OUT-END *)
 (* ------------------------------------------------------------------ no foreign exception anywhere *)
 Lemma primitives_total_lemma s :
   (too_deep 100 0 s = false /\
